@@ -39,6 +39,10 @@ static uint64_t make(int sign, int exp, const char *mant) {
         int mb = atoi(mant + 5);
         m = all & ~((1ULL << (52 - mb)) - 1); /* top mb fraction bits set ... */
         m |= rng_u64() & ((1ULL << (52 - mb)) - 1);
+    } else if (!strncmp(mant, "exact", 5)) { /* exactly K fraction bits needed */
+        int k = atoi(mant + 5);
+        m = (rng_u64() & all) & ~((1ULL << (52 - k)) - 1);
+        m |= 1ULL << (52 - k);
     } else if (!strncmp(mant, "half", 4)) { /* exactly half-way between two kept values */
         int mb = atoi(mant + 4);
         m = (rng_u64() & all) & ~((1ULL << (53 - mb)) - 1);
@@ -226,16 +230,24 @@ int main(int argc, char **argv) {
         double reqs[] = {1e-16, 1e-12, 9.9e-11, 1e-10, 1.1e-10, 1e-8, 1.19e-7, 1.1920928955078125e-7,
                          1.2e-7, 1e-6, 4.9e-4, 5e-4, 5.1e-4, 9.7e-4, 9.765625e-4, 9.8e-4, 0.01,
                          0.029, 0.03, 0.031, 0.06, 0.0625, 0.063, 0.1, 0.5, 0.999};
+        /* mixed arrays, and arrays that are homogeneous in what their values
+         * need (every value exactly representable with K fraction bits): a
+         * data-dependent choice of precision is only as good as its proof */
+        static const char *homog[] = {"mixed", "exact3", "exact4", "exact9", "exact10", "exact22",
+                                      "exact23", "exact24", "carry23", "rand", "zero", "ones"};
         for (size_t k = 0; k < sizeof(reqs) / sizeof(reqs[0]); k++) {
             for (int mode = 0; mode < 3; mode++) {
-                uint64_t arr[8];
-                for (int i = 0; i < 8; i++) {
-                    arr[i] = make((int)(rng_u64() & 1), (int)(rng_u64() % 40) - 20, i % 2 ? "carry23" : "rand");
+                for (size_t h = 0; h < sizeof(homog) / sizeof(homog[0]); h++) {
+                    uint64_t arr[8];
+                    for (int i = 0; i < 8; i++) {
+                        const char *cls_ = h ? homog[h] : (i % 2 ? "carry23" : "rand");
+                        arr[i] = make((int)(rng_u64() & 1), (int)(rng_u64() % 40) - 20, cls_);
+                    }
+                    if (idx++ % nshards != shard) {
+                        continue;
+                    }
+                    roundtrip(arr, 8, 0, mode, 1, dbits(reqs[k]));
                 }
-                if (idx++ % nshards != shard) {
-                    continue;
-                }
-                roundtrip(arr, 8, 0, mode, 1, dbits(reqs[k]));
             }
         }
     }
